@@ -37,7 +37,7 @@ import builtins as _bi
 
 import z3
 
-EVENT_OPS = ("read", "write", "new", "start", "cancel", "join", "acq", "rel", "fault", "nd")
+EVENT_OPS = ("read", "write", "new", "start", "cancel", "join", "acq", "rel", "fault", "nd", "xuse", "xshut")
 CTRL_OPS = ("cj", "jmp", "ret", "raise", "nop")
 MODEL_ERRORS = (RuntimeError, AttributeError)   # what Timer.start()/None.cancel()/Lock.release() raise in the model
 
@@ -1395,12 +1395,14 @@ def _subst(v, args, defaults, prefix):
     return v
 
 
-def link(name, top, resolver, max_depth=6):
+def link(name, top, resolver, max_depth=6, renumber=False):
     """top: MethodIR whose `call` instructions are inlined through resolver(name)->MethodIR.
-    Returns Program (unsliced)."""
+    Returns Program (unsliced).  renumber: every inlined copy of a fault site gets its own id
+    (prog.sites: [(id, label, line, origin, original id)])."""
     prog = Program(name)
     out = prog.code
     regs = []
+    prog.sites = []
 
     def inline(mir, args, prefix, ret_to, err_to, depth, toplevel):
         if depth > max_depth:
@@ -1455,8 +1457,15 @@ def link(name, top, resolver, max_depth=6):
                 out.append(Ins(op, r, i.b, i.c, i.d, err=e, pos=i.pos))
             elif op == "write":
                 out.append(Ins(op, i.a, _subst(i.b, args, mir.defaults, prefix), err=e, pos=i.pos))
-            elif op in ("start", "cancel", "join"):
+            elif op in ("start", "cancel", "join", "xuse", "xshut"):
                 out.append(Ins(op, _subst(i.a, args, mir.defaults, prefix), err=e, pos=i.pos))
+            elif op == "fault" and renumber:
+                ents = []
+                for ent in i.a:
+                    nid = len(prog.sites)
+                    prog.sites.append((nid, ent[1], ent[2], mir.name, ent[0]))
+                    ents.append((nid,) + tuple(ent[1:]))
+                out.append(Ins(op, ents, err=e, pos=i.pos))
             elif op in ("acq", "rel", "fault", "nop"):
                 out.append(Ins(op, i.a, i.b, i.c, i.d, err=e, pos=i.pos))
             else:
@@ -1483,7 +1492,7 @@ def toplevel_calls(calls):
 # ---------------------------------------------------------------------------------------
 # slicing + compaction
 # ---------------------------------------------------------------------------------------
-SEED_OPS = ("new", "start", "cancel", "join", "acq", "rel", "fault")
+SEED_OPS = ("new", "start", "cancel", "join", "acq", "rel", "fault", "xuse", "xshut")
 
 
 def _branch_relevance(prog, relev):
@@ -1811,6 +1820,22 @@ class Bmc:
                         bad = z3.Or(bad, x == self.V(tid))
                     err = bad
                     enabled = z3.Or(bad, tsx == DONE, tsx == CANCELLED)
+            elif op in ("xuse", "xshut"):
+                # concurrent.futures executor objects share the timer-object id space:
+                # CREATED (constructed, no thread) -> WAITING (worker threads alive) -> CANCELLED (shut down)
+                x = self.val(ins.a, regs, prog)
+                tsx = z3.BitVecVal(UNBORN, 3)
+                for i in range(T):
+                    tsx = z3.If(x == self.V(i), a["ts"][i], tsx)
+                if op == "xuse":
+                    err = z3.And(self.is_timer(x), z3.Or(tsx == CANCELLED, tsx == CANCUN))   # submit after shutdown raises
+                    for i in range(T):
+                        gi = z3.And(g, x == self.V(i))
+                        upd["ts"][i] = z3.If(z3.And(gi, a["ts"][i] == CREATED), z3.BitVecVal(WAITING, 3), upd["ts"][i])
+                else:
+                    for i in range(T):
+                        gi = z3.And(g, x == self.V(i))
+                        upd["ts"][i] = z3.If(z3.And(gi, z3.Or(a["ts"][i] == CREATED, a["ts"][i] == WAITING)), z3.BitVecVal(CANCELLED, 3), upd["ts"][i])
             elif op == "acq":
                 own = a["own"][ins.a]
                 me = z3.BitVecVal(tid, self.ob)
@@ -2129,6 +2154,31 @@ def _longest_path(prog):
             r = f(p + 1, st)
         else:
             r = 1 + max(f(p + 1, st), f(i.c, st) if i.op == "nd" else 0, f(i.err, st) if i.err is not None else 0)
+        memo[p] = r
+        return r
+    return f(getattr(prog, "entry", 0))
+
+
+def max_news(prog):
+    """greatest number of object constructions (`new`) on any path of a DAG program"""
+    code = prog.code
+    memo = {}
+
+    def f(p, stack=()):
+        if p in (END, ABORT) or p is None or p >= len(code):
+            return 0
+        if p in memo:
+            return memo[p]
+        if p in stack:
+            raise LoweringError("cycle in program %s" % prog.name)
+        i = code[p]
+        st = stack + (p,)
+        if i.op == "jmp":
+            r = f(i.c, st)
+        elif i.op == "cj":
+            r = max(f(i.c, st), f(p + 1, st))
+        else:
+            r = (1 if i.op == "new" else 0) + max(f(p + 1, st), f(i.c, st) if i.op == "nd" else 0, f(i.err, st) if i.err is not None else 0)
         memo[p] = r
         return r
     return f(getattr(prog, "entry", 0))
@@ -2550,3 +2600,286 @@ def discover_apis(pkg):
                             out.append((mod.__name__ + "." + ".".join(prefix + [ch.name]), fobj))
         visit(tree, [], mod)
     return sorted(out, key=lambda x: x[0])
+
+
+# ---------------------------------------------------------------------------------------
+# H3: concurrent.futures executors -- discovery, call chain, AST lowering
+# ---------------------------------------------------------------------------------------
+def _is_executor_class(obj):
+    try:
+        import concurrent.futures as cf
+        return inspect.isclass(obj) and issubclass(obj, cf.Executor)
+    except Exception:  # noqa
+        return False
+
+
+def _package_functions(pkg):
+    """[(qualified name, function object, owner class or None, ast node)] of every def in the package"""
+    import importlib
+    import pkgutil
+    mods = [pkg]
+    for m in pkgutil.walk_packages(pkg.__path__, pkg.__name__ + "."):
+        try:
+            mods.append(importlib.import_module(m.name))
+        except Exception:  # noqa
+            continue
+    out, seen = [], set()
+    for mod in mods:
+        try:
+            tree = ast.parse(inspect.getsource(mod))
+        except (OSError, TypeError, SyntaxError):
+            continue
+
+        def visit(node, prefix, owner, cls):
+            for ch in ast.iter_child_nodes(node):
+                if isinstance(ch, ast.ClassDef):
+                    c = getattr(owner, ch.name, None)
+                    visit(ch, prefix + [ch.name], c, c)
+                elif isinstance(ch, (ast.FunctionDef, ast.AsyncFunctionDef)) and owner is not None:
+                    try:
+                        fobj = inspect.getattr_static(owner, ch.name)
+                    except AttributeError:
+                        continue
+                    if isinstance(fobj, (staticmethod, classmethod)):
+                        fobj = fobj.__func__
+                    if isinstance(fobj, property):
+                        continue
+                    if inspect.isfunction(fobj) and fobj.__module__ == mod.__name__ and id(fobj) not in seen:
+                        seen.add(id(fobj))
+                        out.append((mod.__name__ + "." + ".".join(prefix + [ch.name]), fobj, cls, ch))
+        visit(tree, [], mod, None)
+    return out
+
+
+def _resolve_dotted(node, g):
+    """ast Name/Attribute chain -> python object through module globals, or None"""
+    parts = []
+    while isinstance(node, ast.Attribute):
+        parts.append(node.attr)
+        node = node.value
+    if not isinstance(node, ast.Name):
+        return None
+    obj = g.get(node.id, getattr(_bi, node.id, None))
+    for a in reversed(parts):
+        if obj is None:
+            return None
+        obj = getattr(obj, a, None)
+    return obj
+
+
+def discover_executor_chains(pkg):
+    """every function that constructs a concurrent.futures executor, with its call chain (name based) up to the
+    outermost callers inside the package.
+    -> [dict(site=qualname, top=qualname, chain={method name: (function, class)}, top_fn, top_cls)]"""
+    funcs = _package_functions(pkg)
+    makers = []
+    for q, f, cls, node in funcs:
+        for c in ast.walk(node):
+            if isinstance(c, ast.Call) and _is_executor_class(_resolve_dotted(c.func, f.__globals__)):
+                makers.append((q, f, cls))
+                break
+    out = []
+    name_count = {}
+    for q2, f2, cls2, node2 in funcs:
+        name_count[f2.__name__] = name_count.get(f2.__name__, 0) + 1
+
+    def calls(node2, f2, cls2, name, target_fn):
+        """does function f2 call target_fn (named `name`)?  self.name(): resolved through the class;
+        other receivers: only if the method name is unique in the package"""
+        sn = node2.args.args[0].arg if node2.args.args else None
+        for c in ast.walk(node2):
+            if isinstance(c, ast.Call) and isinstance(c.func, ast.Attribute) and c.func.attr == name:
+                recv = c.func.value
+                if isinstance(recv, ast.Name) and recv.id == sn and cls2 is not None:
+                    try:
+                        if inspect.getattr_static(cls2, name) is target_fn:
+                            return True
+                    except AttributeError:
+                        pass
+                elif name_count.get(name, 0) == 1:
+                    return True
+        return False
+    for q, f, cls in makers:
+        chain = {f.__name__: (f, cls, q)}
+        frontier = [f.__name__]
+        tops = []
+        guard = 0
+        while frontier and guard < 8:
+            guard += 1
+            nxt = []
+            for name in frontier:
+                callers = [(q2, f2, cls2) for q2, f2, cls2, node2 in funcs
+                           if f2 is not chain[name][0] and calls(node2, f2, cls2, name, chain[name][0])]
+                if not callers:
+                    tops.append(name)
+                for q2, f2, cls2 in callers:
+                    if f2.__name__ not in chain:
+                        chain[f2.__name__] = (f2, cls2, q2)
+                        nxt.append(f2.__name__)
+            frontier = nxt
+        tops += frontier
+        for t in sorted(set(tops)):
+            out.append({"site": q, "top": chain[t][2], "top_fn": chain[t][0], "top_cls": chain[t][1], "chain": chain})
+    return out
+
+
+def init_consts(cls):
+    """attr -> ('const', None/True/False) for attributes that __init__ assigns a constant (and nothing else)"""
+    out = {}
+    if cls is None:
+        return out
+    try:
+        fn = inspect.getattr_static(cls, "__init__")
+        node, _, _ = _fn_ast(fn)
+    except Exception:  # noqa
+        return out
+    selfname = node.args.args[0].arg if node.args.args else "self"
+    for n in ast.walk(node):
+        if isinstance(n, ast.Assign):
+            for t in n.targets:
+                if isinstance(t, ast.Attribute) and isinstance(t.value, ast.Name) and t.value.id == selfname:
+                    v = n.value
+                    val = ("const", v.value) if isinstance(v, ast.Constant) and (v.value is None or v.value is True or v.value is False) else OTHER
+                    out[t.attr] = val if t.attr not in out or out[t.attr] == val else OTHER
+    return out
+
+
+class _ExecAst(_ApiAst):
+    """API-style lowering (every call a fault site, loops unrolled, exception edges) that tracks executor objects:
+    construction (`new`), map/submit (`xuse`), shutdown / leaving `with` (`xshut`), attributes of self (read / write,
+    keyed by object path), and calls into other functions of the chain (`call`, inlined by link)."""
+
+    def __init__(self, fn, util_mod, chain, selfpath, unroll):
+        _ApiAst.__init__(self, fn, util_mod, None, unroll)
+        self.chain = chain
+        self.selfpath = selfpath
+        a = self.node.args
+        names = [x.arg for x in a.posonlyargs + a.args]
+        self.selfname = names[0] if names and selfpath is not None else None
+        if self.selfname:
+            self.env[self.selfname] = ("selfobj", selfpath)
+        self.regpath = {}
+        self.newregs = set()
+
+    def newreg(self):
+        self.nreg += 1
+        return ("reg", "x%d" % self.nreg)
+
+    def bind(self, name, v):
+        self.env[name] = v if v[0] in ("reg", "const", "selfobj", "py", "bx") else OTHER
+
+    def escape(self, v, node):
+        if v and v[0] == "reg" and v[1] in self.newregs:
+            raise LoweringError("line %s: an executor object is passed on / stored in a container: not modelled" % self.pos(node))
+
+    def load_attr(self, recv, name, node):
+        if recv[0] == "selfobj":
+            cls = self.owner_cls
+            if cls is not None:
+                try:
+                    if inspect.isfunction(inspect.getattr_static(cls, name)):
+                        return ("meth", recv, name)
+                except AttributeError:
+                    pass
+            r = self.newreg()
+            self.regpath[r[1]] = recv[1] + "." + name
+            self.emit(Ins("read", r[1], recv[1] + "::" + name, pos=self.pos(node)))
+            return r
+        if recv[0] == "py":
+            try:
+                return ("py", getattr(recv[1], name))
+            except AttributeError:
+                return OTHER
+        if recv[0] == "reg":
+            return ("meth", recv, name)
+        return OTHER
+
+    def store_attr(self, recv, name, v, node):
+        if recv[0] == "selfobj":
+            self.emit(Ins("write", recv[1] + "::" + name, irval(v), pos=self.pos(node)))
+        else:
+            self.escape(v, node)
+
+    def _with_items(self, s, k):
+        # remember which `with` items are executor-like values
+        return _ApiAst._with_items(self, s, k)
+
+    def with_enter(self, cm, node):
+        self.fault(node, "with-enter")
+        return cm if cm[0] == "reg" else OTHER
+
+    def with_exit(self, cm, node, exc):
+        if cm[0] == "reg":
+            # Executor.__exit__ = shutdown(wait=True); a no-op in the model if the value is not an executor
+            self.emit(Ins("xshut", cm, pos=self.pos(node)))
+            return False
+        self.fault(node, "with-exit")
+        return cm[0] != "prog"
+
+    def ev(self, n):
+        t = type(n)
+        if t is ast.Attribute:
+            return self.load_attr(self.ev(n.value), n.attr, n)
+        if t is ast.Compare:
+            return _AstLower.ev_compare(self, n)
+        if t is ast.UnaryOp and isinstance(n.op, ast.Not):
+            return self.ev_not(n)
+        if t is ast.Call:
+            f = self.ev(n.func)
+            args = []
+            for a in n.args:
+                args.append(self.ev(a.value if isinstance(a, ast.Starred) else a))
+            for k in n.keywords:
+                args.append(self.ev(k.value))
+            if f[0] == "py" and _is_executor_class(f[1]):
+                self.fault(n)
+                r = self.newreg()
+                self.newregs.add(r[1])
+                self.emit(Ins("new", r[1], "<executor>", "executor", pos=self.pos(n)))
+                return r
+            if f[0] == "meth":
+                recv, name = f[1], f[2]
+                if name in self.chain and recv[0] in ("selfobj", "reg"):
+                    path = recv[1] if recv[0] == "selfobj" else self.regpath.get(recv[1])
+                    if recv[0] == "selfobj":
+                        try:
+                            if inspect.getattr_static(self.owner_cls, name) is not self.chain[name][0]:
+                                path = None
+                        except (AttributeError, TypeError):
+                            path = None
+                    if path is not None:
+                        self.emit(Ins("call", "%s|%s" % (path, name), (), pos=self.pos(n)))
+                        return OTHER
+                if recv[0] == "reg":
+                    if name in ("map", "submit"):
+                        self.emit(Ins("xuse", recv, pos=self.pos(n)))
+                        self.fault(n)
+                        return OTHER
+                    if name == "shutdown":
+                        self.emit(Ins("xshut", recv, pos=self.pos(n)))
+                        return OTHER
+            for v in args:
+                self.escape(v, n)
+            self.fault(n)
+            return OTHER
+        return _ApiAst.ev(self, n)
+
+    def s_For(self, s):
+        self.ev(s.iter)
+
+        def head(lexit):
+            self.fault(s.iter, "iteration")      # next() of the iterable may raise (e.g. a failed worker of executor.map)
+            self.emit(Ins("nd", c=lexit, pos=self.pos(s)))
+            self.assign(s.target, OTHER)
+        self.loop(s, head, None)
+
+    def _pure_since(self, snap):
+        return self.nplaced == snap[6] and all(i.op in ("fault", "read") for i in self.code[snap[0]:])
+
+
+def lower_ast_exec(fn, cls, util_mod, chain, selfpath, unroll):
+    lw = _ExecAst(fn, util_mod, chain, selfpath, unroll)
+    lw.owner_cls = cls
+    mir = lw.lower()
+    mir.sites = lw.sites
+    return mir
